@@ -8,6 +8,8 @@ import (
 	"path/filepath"
 	"testing"
 
+	"github.com/git-lfs/git-lfs/v3/subprocess"
+
 	"verif/sim"
 )
 
@@ -69,8 +71,10 @@ func WorkerMain(t *testing.T) {
 	// command credential helper used by C10 (active only while
 	// VERIF_CMDHELPER=1 is exported by the run)
 	helperPath := filepath.Join(root, "credhelper.sh")
-	os.WriteFile(helperPath, []byte("#!/bin/sh\n[ \"$VERIF_CMDHELPER\" = 1 ] || exit 0\n[ \"$1\" = get ] || exit 0\nwhile read l; do case $l in protocol=*) p=${l#protocol=};; host=*) h=${l#host=};; esac; done\necho username=cmduser\necho password=cmd-$p-$h | tr ':' '_'\n"), 0755)
+	os.WriteFile(helperPath, []byte("#!/bin/sh\n[ -e \"$HOME/cmdhelper-on\" ] || exit 0\n[ \"$1\" = get ] || exit 0\nwhile read l; do case $l in protocol=*) p=${l#protocol=};; host=*) h=${l#host=};; esac; done\necho username=cmduser\necho password=cmd-$p-$h | tr ':' '_'\n"), 0755)
 	os.WriteFile(filepath.Join(home, ".gitconfig"), []byte("[credential]\n\thelper = "+helperPath+"\n"), 0644)
+	// git-lfs caches the environment it hands to subprocesses
+	subprocess.ResetEnvironment()
 	cwd := filepath.Join(root, "cwd")
 	os.MkdirAll(filepath.Join(cwd, ".git"), 0755)
 	os.Chdir(cwd)
